@@ -68,6 +68,19 @@ func (ck *Checker) stubOverlay(scratch string, in *Instance) (map[string]string,
 			return nil
 		})
 	}
+	lockFiles := map[string]bool{}
+	if in.stubSet["yieldlocks"] {
+		filepath.Walk(ck.repo, func(p string, info os.FileInfo, err error) error {
+			if err != nil || info.IsDir() || !strings.HasSuffix(p, ".go") || strings.HasSuffix(p, "_test.go") || strings.Contains(filepath.Base(p), "zz_") {
+				return nil
+			}
+			b, _ := os.ReadFile(p)
+			if bytes.Contains(b, []byte("Lock()")) {
+				lockFiles[p] = true
+			}
+			return nil
+		})
+	}
 	randFiles := map[string]bool{}
 	if in.stubSet["randstub"] {
 		filepath.Walk(ck.repo, func(p string, info os.FileInfo, err error) error {
@@ -84,6 +97,9 @@ func (ck *Checker) stubOverlay(scratch string, in *Instance) (map[string]string,
 	out := map[string]string{}
 	files := map[string]bool{}
 	for f := range randFiles {
+		files[f] = true
+	}
+	for f := range lockFiles {
 		files[f] = true
 	}
 	for f := range byFile {
@@ -142,6 +158,31 @@ func (ck *Checker) stubOverlay(scratch string, in *Instance) (map[string]string,
 						}
 					}
 				}
+				return true
+			}, nil)
+		}
+		if lockFiles[file] {
+			// a scheduling point before every lock acquisition (the points at which gosym switches threads)
+			astutil.Apply(af, func(c *astutil.Cursor) bool {
+				es, ok := c.Node().(*ast.ExprStmt)
+				if !ok {
+					return true
+				}
+				call, ok := es.X.(*ast.CallExpr)
+				if !ok || len(call.Args) != 0 {
+					return true
+				}
+				sel, ok := call.Fun.(*ast.SelectorExpr)
+				if !ok || (sel.Sel.Name != "Lock" && sel.Sel.Name != "RLock") {
+					return true
+				}
+				if _, inList := c.Parent().(*ast.BlockStmt); !inList {
+					if _, inCase := c.Parent().(*ast.CaseClause); !inCase {
+						return true
+					}
+				}
+				c.InsertBefore(&ast.ExprStmt{X: &ast.CallExpr{Fun: &ast.SelectorExpr{X: ast.NewIdent("zzverif"), Sel: ast.NewIdent("Yield")}}})
+				changed = true
 				return true
 			}, nil)
 		}
